@@ -149,10 +149,13 @@ type Prelude struct {
 	Consts  map[string]string // declared constants -> sort
 	ModDeps map[string][]string
 	AfterSorts map[string]bool // modules that must be emitted after the program datatypes
+	GoTypes []string // Go types whose sorts the prelude mentions
+	ExtraDecl map[string]string // constructor/selector symbol -> module
+	Attach map[string][]string // module -> axiom modules attached to it (left out of lemma queries)
 }
 
 func LoadPrelude(paths ...string) (*Prelude, error) {
-	p := &Prelude{Fns: map[string]*SpecFn{}, Ghosts: map[string]string{}, Consts: map[string]string{}, ModDeps: map[string][]string{}, AfterSorts: map[string]bool{}}
+	p := &Prelude{Fns: map[string]*SpecFn{}, Ghosts: map[string]string{}, Consts: map[string]string{}, ModDeps: map[string][]string{}, AfterSorts: map[string]bool{}, ExtraDecl: map[string]string{}, Attach: map[string][]string{}}
 	for _, path := range paths {
 		data, err := os.ReadFile(path)
 		if err != nil {
@@ -186,6 +189,16 @@ func LoadPrelude(paths ...string) (*Prelude, error) {
 				for _, d := range f[1:] {
 					p.ModDeps[module] = append(p.ModDeps[module], d)
 				}
+				continue
+			}
+			if strings.HasPrefix(s, ";@attach") {
+				for _, m := range strings.Fields(strings.TrimPrefix(s, ";@attach")) {
+					p.Attach[m] = append(p.Attach[m], module)
+				}
+				continue
+			}
+			if strings.HasPrefix(s, ";@gotype") {
+				p.GoTypes = append(p.GoTypes, strings.Fields(strings.TrimPrefix(s, ";@gotype"))...)
 				continue
 			}
 			if strings.HasPrefix(s, ";@ghost") {
@@ -259,6 +272,16 @@ func (p *Prelude) addItem(sx *SX, module string) error {
 	case "declare-datatypes":
 		// ((Name 0)) (((ctor (sel S)...)))
 		it.Decl = sx.List[1].List[0].List[0].Atom
+		for _, ctor := range sx.List[2].List[0].List {
+			cf := &SpecFn{Name: ctor.List[0].Atom, Res: it.Decl, Module: module}
+			for _, sel := range ctor.List[1:] {
+				cf.Args = append(cf.Args, sel.List[1].String())
+				p.Fns[sel.List[0].Atom] = &SpecFn{Name: sel.List[0].Atom, Args: []string{it.Decl}, Res: sel.List[1].String(), Module: module}
+				p.ExtraDecl[sel.List[0].Atom] = module
+			}
+			p.Fns[cf.Name] = cf
+			p.ExtraDecl[cf.Name] = module
+		}
 	case "assert":
 	default:
 		return fmt.Errorf("unsupported prelude command %s", head)
@@ -270,12 +293,18 @@ func (p *Prelude) addItem(sx *SX, module string) error {
 // Select returns the prelude text needed for a query mentioning the given
 // symbols: the core module plus every module declaring a used symbol,
 // transitively through the symbols those modules mention.
-func (p *Prelude) Select(used map[string]bool) (before, after []string, mods []string) {
+func (p *Prelude) Select(used map[string]bool, lemmaMode bool) (before, after []string, mods []string) {
 	declMod := map[string]string{}
 	for _, it := range p.Items {
 		if it.Decl != "" {
 			declMod[it.Decl] = it.Module
 		}
+	}
+	for k, m := range p.ExtraDecl {
+		declMod[k] = m
+	}
+	for g := range p.Ghosts {
+		_ = g
 	}
 	active := map[string]bool{"core": true}
 	work := []string{"core"}
@@ -291,6 +320,14 @@ func (p *Prelude) Select(used map[string]bool) (before, after []string, mods []s
 	for len(work) > 0 {
 		m := work[len(work)-1]
 		work = work[:len(work)-1]
+		if !lemmaMode {
+			for _, d := range p.Attach[m] {
+				if !active[d] {
+					active[d] = true
+					work = append(work, d)
+				}
+			}
+		}
 		for _, d := range p.ModDeps[m] {
 			if !active[d] {
 				active[d] = true
